@@ -67,3 +67,11 @@ Theorem C16_latest_value_of_latest :
   forall k L L', latest k L' = latest k L -> latest_value k L' = latest_value k L.
 Proof. intros k L L' E. unfold latest_value. now rewrite E. Qed.
 Print Assumptions C16_latest_value_of_latest.
+
+(* completeness: every examined message that is followed by a later examined message with the same key is selected,
+   so after CompactUpdates at most one message per key is left among those not newer than the cut-off (for message
+   times that never decrease these are exactly the examined ones) *)
+Theorem C16_updates_complete :
+  forall P o, has_later P o -> In o (fst (fold_left upd_g P ([], []))).
+Proof. exact upd_complete. Qed.
+Print Assumptions C16_updates_complete.
